@@ -56,7 +56,7 @@ func aliasDoc(m M) M {
 				case k == "id" || k == "@context" || strings.Contains(k, ":"):
 					c[k] = vv
 				case k == "type":
-					if ts, ok := vv.(string); ok {
+					if ts, ok := vv.(string); ok && !strings.Contains(ts, ":") {
 						c[k] = "as:" + ts
 					} else {
 						c[k] = vv
